@@ -203,6 +203,8 @@ def run(ctx):
     nb, nc, npn = (6, 8, 12) if ctx.quick else (40, 40, 36)
     for j in range(nb):
         inp = brew_input(rng, j)
+        if j % 2:
+            inp["est"] = "proba"          # an estimator without decision_function (predict_proba only, no calibration)
         for learner in ((None,) if j % 3 else (None, "lr")):
             g = len(groups)
             groups.append({"kind": "brew", "input": inp, "learner": learner, "tol": 2 if learner else 0})
